@@ -351,9 +351,7 @@ class MQTTProtocol(MQTTBaseProtocol):
         '''
         Called when a CONNACK has been received (publisher only).
         '''
-        if self._cleanStart:
-            self._purgeSession(MQTTSessionCleared())
-        else:
+        if not self._cleanStart:
             self._syncSession()
         if self.onMqttConnectionMade:
             self.onMqttConnectionMade()
@@ -361,6 +359,19 @@ class MQTTProtocol(MQTTBaseProtocol):
     # ---------------------------
     # State Machine API callbacks
     # ---------------------------
+
+    def doConnect(self, request):
+        '''
+        Send a CONNECT control packet.
+        '''
+        d = MQTTBaseProtocol.doConnect(self, request)
+        if self.state is self.CONNECTING and self._cleanStart:
+            # A clean session discards what earlier connections left behind,
+            # before anything can be requested on this one.
+            self._purgeSession(MQTTSessionCleared())
+        return d
+
+    # --------------------------------------------------------------------------
 
     def doSubscribe(self, request):
         '''
@@ -611,10 +622,13 @@ class MQTTProtocol(MQTTBaseProtocol):
         Tries to restore the session state upon a new MQTT connection made (publisher)
         '''
         #log.debug("{event}", event="Sync Persistent Session")
+        # Requests already sent on this connection (before CONNACK) have their alarm armed
         for _, reply in self.factory.windowPubRelease[self.addr].items():
-            self._retryRelease(reply, dup=True)
+            if reply.alarm is None:
+                self._retryRelease(reply, dup=True)
         for _, request in self.factory.windowPublish[self.addr].items():
-            self._retryPublish(request, dup=True)
+            if request.alarm is None:
+                self._retryPublish(request, dup=True)
 
     # --------------------------------------------------------------------------
 
@@ -632,6 +646,13 @@ class MQTTProtocol(MQTTBaseProtocol):
             request = self.factory.windowPubRelease[self.addr][k]
             del self.factory.windowPubRelease[self.addr][k]
             request.deferred.errback(reason)
+
+        # Messages held back by the window belong to the session too
+        queue = self.factory.queuePublishTx[self.addr]
+        while len(queue):
+            request = queue.popleft()
+            if request.msgId is not None:   # QoS 0 deferreds have already fired
+                request.deferred.errback(reason)
 
 
     # -------------------------------------
@@ -673,11 +694,5 @@ class MQTTProtocol(MQTTBaseProtocol):
         # Then, invoke errbacks anyway if we do not persist state
         if self._cleanStart:
             self._purgeSession(reason)
-            # Messages held back by the window belong to the lost session too
-            queue = self.factory.queuePublishTx[self.addr]
-            while len(queue):
-                request = queue.popleft()
-                if request.msgId is not None:   # QoS 0 deferreds have already fired
-                    request.deferred.errback(reason)
 
 __all__ = [ "MQTTProtocol" ]
